@@ -24,6 +24,29 @@ NOT_APPLICABLE = {
 
 # id -> (technique, level text, level note, design ref)
 CLAIMS = {
+    'C02': ('exchange-symmetry of canonicalised rate expressions, sibling comparison of canonicalised assembly statements '
+            'and cross-module rate formulas, solver-branch lint, dimension-context analysis',
+            'Static, exhaustive over the interstitial assembly: decides that the symmetrised rate is endpoint-symmetric, '
+            'that the three routines assemble rate matrix / bias / bare diffusivity with identical statements and loop '
+            'bindings, that the Green-function calculator uses the same rate and escape formulas, and that the bias '
+            'solver branches are coherent. The value of the correlated diffusivity is numerical and not decided.',
+            'trusts CPython ast; canonical form treats + and * as commutative', 'DESIGN.md §4 C02'),
+    'C04': ('reference-class linear algebra over Boltzmann-factor arguments (balance), scaling-degree algebra for prefactors, '
+            'argument-class agreement across calls, solver homogeneity lint',
+            'Static, exhaustive over the 14 Boltzmann factors and the reference bookkeeping: decides that every exponent is '
+            'a same-reference free-energy difference, that arrays are passed with the documented reference class, that '
+            'preene2betafree subtracts exactly the right minima, that rates have prefactor degree 0, and that the solver '
+            'is scale-homogeneous. These are necessary for shift/scale invariance for every input; kT co-scaling and '
+            'exact proportionality are numerical and not decided.',
+            'trusts CPython ast; reference classes of parameters are a frozen table taken from the docstrings',
+            'DESIGN.md §4 C04'),
+    'C10': ('exchange-symmetry of the symmetric rate, selection-idiom lint for the Taylor class, dimension-context analysis, '
+            'statement-shape rule for the group average, def-use completeness of SetRates state',
+            'Static, exhaustive over GFcalc.py: decides that the symmetric rate is endpoint-symmetric, that the Taylor class '
+            'is always chosen by dimension and the HDF5 tag agrees, that the module is dimension-generic, that __call__ '
+            'averages over all stored operations, and that observers read only state written by __init__/SetRates. That '
+            'G solves the diffusion equation is numerical and not decided.',
+            'trusts CPython ast', 'DESIGN.md §4 C10'),
     'C01': ('exchange-symmetry of canonicalised AST fragments, endpoint-coherence lint, table/plumbing agreement, '
             'provenance-based omega-family typing of contractions',
             'Static, exhaustive over the rate construction, LIMB back-fill, probability symmetrisation, the data plumbing '
